@@ -21,6 +21,10 @@ class Outcome:
 
 N_ = Outcome("N")
 
+import os as _os
+FEAS_RLIMIT_QF = int(_os.environ.get("PYVC_FEAS_RLIMIT_QF", "300000"))
+FEAS_RLIMIT_FULL = int(_os.environ.get("PYVC_FEAS_RLIMIT_FULL", "600000"))
+
 
 class Obligation:
     def __init__(self, name, func, kind, clause, pc, goal, trace, props=(), info=None):
@@ -188,7 +192,12 @@ class EngineBase:
             return z3.ArraySort(RefS, z3.ArraySort(z3.IntSort(), es))
         if ty[0] == "dict":
             raise Unsupported("dict field sort requested directly")
+        if ty[0] == "set":
+            raise Unsupported("set field sort requested directly")
         return z3.ArraySort(RefS, sort_of(ty))
+
+    def set_sort(self):
+        return z3.ArraySort(RefS, z3.ArraySort(RefS, z3.BoolSort()))
 
     def read_field(self, st, obj, key, ty):
         """obj: z3 Ref term"""
@@ -198,6 +207,9 @@ class EngineBase:
             raise Unsupported("optional list field %s: use read_optlist" % key)
         if ty[0] == "dict":
             return DictFld(obj, key, ty[1], ty[2], sorted=len(ty) > 3 and ty[3] == "sorted")
+        if ty[0] == "set":
+            from .call import WeakSetVal
+            return WeakSetVal(obj, key, ty[1])
         arr = st.harr(key, self.key_sort(key, ty))
         return Val(ty, z3.Select(arr, obj))
 
@@ -212,6 +224,13 @@ class EngineBase:
                     return
             lv = self.as_lval(st, val, ty[1])
             self.set_list(st, FldList(obj, key, ty[1]), lv)
+            return
+        if ty[0] == "set":
+            from .call import EmptySet
+            if not isinstance(val, EmptySet):
+                raise Unsupported("assignment of a non-empty set to field %s" % key)
+            mem = st.harr(key + "#mem", self.set_sort())
+            st.hset(key + "#mem", z3.Store(mem, obj, z3.K(RefS, z3.BoolVal(False))))
             return
         if ty[0] == "dict":
             is_sorted = len(ty) > 3 and ty[3] == "sorted"
@@ -445,8 +464,11 @@ class EngineBase:
         First on the quantifier-free part only (fast, still sound for pruning), then with everything."""
         self.stats["feas_checks"] += 1
         qf = [c for c in st.pc if not self.has_quant(c)]
+        # budgets are z3 resource units (deterministic, independent of machine load); the wall-clock limits are only a
+        # safety net.  ~1.2e6 units per second on the reference machine.
         s = z3.Solver()
-        s.set("timeout", 150)
+        s.set("rlimit", FEAS_RLIMIT_QF)
+        s.set("timeout", 5000)
         for a in self.class_axioms_ground():
             s.add(a)
         for c in qf:
@@ -458,7 +480,8 @@ class EngineBase:
             self.infeasible += 1
             return False
         s = z3.Solver()
-        s.set("timeout", 80)
+        s.set("rlimit", FEAS_RLIMIT_FULL)
+        s.set("timeout", 5000)
         for a in self.class_axioms():
             s.add(a)
         for a in st.hs.axioms:
